@@ -40,7 +40,7 @@ try:
     shutil.copytree("/repo/mingus", os.path.join(d, "mingus"))
     shutil.copytree("/repo/tests", os.path.join(d, "tests"))
     env = dict(os.environ, PYTHONPATH=d, PYTHONDONTWRITEBYTECODE="1")
-    demo = os.path.join(a.src, "demo.py")
+    demo = os.path.abspath(os.path.join(a.src, "demo.py"))
     r0 = run([PY, "-W", "ignore", demo], env=env, cwd=d)
     meta["demo_without_change"] = r0.returncode
     p = run(["patch", "-p1", "-s", "-d", d, "-i", os.path.abspath(os.path.join(a.src, "patch.diff"))])
